@@ -141,12 +141,26 @@ fn random_session(rng: &mut Rng) -> Session {
     cfg.max_blocks = rng.range(1, 6) as usize;
     cfg.max_ins = rng.range(1, 4) as usize;
     cfg.allow_intrinsic = rng.chance(1, 8);
-    cfg.allow_branch = rng.chance(1, 3);
+    cfg.allow_branch = rng.chance(1, 2);
+    cfg.branch_pct = 6;
     cfg.expr_depth = rng.range(1, 3) as u32;
     let mut prog = vec![gen::function(rng, &cfg, 0x1000)];
     if rng.chance(1, 3) {
         prog.push(gen::function(rng, &cfg, 0x5000));
         // let the first function branch into the second now and then
+    }
+    // instruction indices need not be contiguous: remove an instruction here and there
+    for f in prog.iter_mut() {
+        let nb = f.blocks().len();
+        for b in 0..nb {
+            if rng.chance(1, 4) {
+                let idxs: Vec<usize> = f.block(b).unwrap().instructions().iter().map(|i| i.index()).collect();
+                if idxs.len() >= 2 {
+                    let victim = idxs[rng.below((idxs.len() - 1) as u64) as usize];
+                    f.block_mut(b).unwrap().remove_instruction(victim).unwrap();
+                }
+            }
+        }
     }
     let big = rng.bool();
     let mut sc = Vec::new();
